@@ -54,11 +54,11 @@ func ruleCC1(pkgs ...string) Rule {
 					rr.Unk(t, t.Name+"|token-channel", t.Pos(), "Lex does not receive from a channel field")
 					continue
 				}
-				if len(t.Body.List) == 0 || deferredLit(t.Body.List[0]) == nil {
+				fl := c.rootHandler(t)
+				if len(t.Body.List) == 0 || fl == nil {
 					rr.Bad(t, t.Name+"|defer-first", t.Pos(), "the root's first statement is not a deferred closure: a panic or bail-out would leave the parser blocked in Lex forever")
 					continue
 				}
-				fl := deferredLit(t.Body.List[0])
 				info := t.Info()
 				for v := range need {
 					key := fmt.Sprintf("%s|close(%s)", t.Name, v.Name())
